@@ -7,7 +7,10 @@ use crate::sync_util;
 
 use std::cell::Cell;
 use std::marker::PhantomData;
+#[cfg(not(all(excsn_fibre_verif, excsn_fibre_verif_shuttle)))]
 use std::time::{Duration, Instant};
+#[cfg(all(excsn_fibre_verif, excsn_fibre_verif_shuttle))]
+use {crate::internal::sync::Instant, std::time::Duration};
 
 use crate::internal::sync::{hint, thread, Arc, AtomicBool, Ordering};
 
